@@ -5,7 +5,7 @@ cd /verif
 PROPS=C01,C02,C03,C04,C05,C07,C08,C09,C10,C11,C12,C13,C14,C15,C17
 for id in "$@"; do
   [ -e /var/tmp/cbv-matrix.stop ] && { echo "stopped before $id"; break; }
-  CBV_SCALE=0.25 CBV_NO_FUZZ=1 python3 tools/seeded.py run $id --props $PROPS 2>&1 | grep -E "caught|inconclusive|does not apply"
+  CBV_WATCHDOG_S=20 CBV_SCALE=0.25 CBV_NO_FUZZ=1 python3 tools/seeded.py run $id --props $PROPS 2>&1 | grep -E "caught|inconclusive|does not apply"
   echo "done $id"
 done
 echo "matrix finished"
